@@ -27,7 +27,10 @@ request (JSON on stdin):
 
 The last line of stdout is  @@C12@@<json>.  'history' mode drives logic.basic (the code under test) and dumps
 kernel.theory.thy after the final load.  'reference' mode never touches logic.basic's loader: it reads the JSON
-files itself and extends a fresh Theory item by item (see ref_*).
+files itself and extends a fresh Theory item by item (class RefLoader).  With "prelude": true it first imports
+every module that registers macros or loads theories at import (PRELUDE); the dumps of all 43 library theories
+are identical with and without it (parsing an item does not depend on registered macros), so the check runs the
+reference without the prelude, which is four times cheaper.
 
 The dump is structural (walks the public fields of Type / Term / Thm), so it does not depend on printer
 settings, on term caches or on `_id`.
